@@ -5,6 +5,7 @@ import (
 	"go/token"
 	"go/types"
 	"math/big"
+	"strings"
 )
 
 // wrapTo wraps the mathematical integer term t (with optional interval
@@ -155,6 +156,17 @@ func (f *FuncVC) intBinop(st *State, op token.Token, x, y *Val, ty types.Type) *
 			lo, hi = bigMin(a, b, c, d), bigMax(a, b, c, d)
 		}
 		r := f.wrapTo(arith("*", x.T, y.T), lo, hi, ty)
+		if _, xl := litInt(x.T); !xl && f.pure == 0 && st != nil {
+			if _, yl := litInt(y.T); !yl && strings.HasPrefix(r.T, "(wrap") {
+				// product of two symbolic values: state the (valid) range lemma
+				// |x|,|y| <= 2^31 ==> |x*y| <= 2^62 and the sign rule, so that the
+				// solver can drop the wrap without nonlinear reasoning
+				p := arith("*", x.T, y.T)
+				f.fact(st, implies(and(cmp("<=", "(- 2147483648)", x.T), cmp("<=", x.T, "2147483648"), cmp("<=", "(- 2147483648)", y.T), cmp("<=", y.T, "2147483648")),
+					and(cmp("<=", "(- 4611686018427387904)", p), cmp("<=", p, "4611686018427387904"))))
+				f.fact(st, implies(and(cmp("<=", "0", x.T), cmp("<=", "0", y.T)), cmp("<=", "0", p)))
+			}
+		}
 		if c, ok := litInt(y.T); ok && c.Sign() > 0 {
 			r.LowZero = x.LowZero + trailingZeros(c)
 		}
